@@ -40,6 +40,12 @@ KF_MERGETIES = ("TopDocs over several segments breaks a tie on the sort key by t
                 "lost (and never returned by paging)")
 
 
+KF_MAXSCORE = ("TopDocs by score over a union / intersection of term queries misses a better document whose real term score exceeds "
+               "Bm25Weight::max_score(): the bound assumes term frequency <= field length, but the one-byte field norm decodes to a "
+               "smaller length than the real one (a long document made of one repeated word), so block-WAND's per-term upper bound is "
+               "too low and the pivot selection prunes the document")
+
+
 def only_tie_order_differs(diag):
     """the returned page has exactly the keys of the expected page, only other documents of the boundary key"""
     top, exp = diag.get("top"), diag.get("expected")
@@ -81,6 +87,8 @@ def classify(diag, ev):
         return "C06: " + why
     q = diag.get("q", {})
     key = diag.get("key", {})
+    if ev.get("maxscore_exceeded") and key.get("kind") in ("score", "tweak_mul", "pair"):
+        return "C06 top-K: " + KF_MAXSCORE + " [" + ", ".join(ev["maxscore_exceeded"]) + "]"
     if uses_field(q, "nf") and key.get("kind") in ("score", "tweak_mul", "pair"):
         return "C06 top-K: " + KF_NOFIELDNORM
     if only_tie_order_differs(diag):
@@ -273,16 +281,39 @@ def known_finding_runs(ctx):
     ctx.cov["repaired_findings_regressed"]["F38 no_fieldnorms_block_max_zero"] = any(KF_NOFIELDNORM in s for s in seen2)
     # regression case of the repaired F42: tie order lost in the merge of segment hits (800 documents in 5 segments, 195 matches of which most have no
     # `dt` value, ascending order with missing values first: rank 56 falls inside the group of equal keys of segment 2)
-    tq = lambda x: {"o": "must", "q": {"k": "term", "f": "title", "t": x, "opt": "freq"}}
-    case = {"q": {"k": "bool", "cl": [tq("all"), tq("t2"), tq("t0"), tq("t0")], "msm": 0, "explicit": False},
-            "key": {"kind": "fast", "f": "dt", "ty": "date", "cmp": ["reverse"], "via_order": False}, "plan": [[7, 49], [56, 0], [7, 42], [7, 56]]}
+    # (found by a hunt with the fix reverted; it depends on the generated corpus: after a change of qlib::gen_corpus check with
+    #  seeded/regress_F42 that it still fails there, else hunt again - 800 documents in 5 segments, a few hundred searches)
+    t0 = lambda f: {"o": "should", "q": {"k": "term", "f": f, "t": "t0", "opt": "freq"}}
+    case = {"q": {"k": "bool", "cl": [t0("nf"), t0("title")], "msm": 1, "explicit": False},
+            "key": {"kind": "string", "f": "cat", "cmp": ["reverse_none_lower"], "via_order": True}, "plan": [[7, 14], [21, 0], [7, 7], [7, 21]]}
     cp = ctx.path("kf_ties_cases.ndjson")
     vlib.write_ndjson(cp, [case])
     tp = ctx.path("kf_ties_trace.ndjson")
-    vlib.run_bin("topk_driver", ["search", "--seed", 10, "--docs", 800, "--segments", 5, "--fixed", cp, "--out", tp], timeout=300)
+    vlib.run_bin("topk_driver", ["search", "--seed", 122, "--docs", 800, "--segments", 5, "--fixed", cp, "--out", tp], timeout=300)
     seen3 = []
     validate(ctx, vlib.read_ndjson(tp), "regr_ties", expect=seen3)
     ctx.cov["repaired_findings_regressed"]["F42 merge_tie_order"] = any(KF_MERGETIES in s for s in seen3)
+
+
+def f47_reproduction(ctx):
+    """recorded finding F47 (Bm25Weight::max_score is not an upper bound when a long document is one repeated word): the default
+    corpora keep term frequencies near half of the field length; this run builds the one-word variant (VERIF_HEAVY_SINGLE)"""
+    t = {"k": "term", "f": "body", "t": "b0", "opt": "freq"}
+    t1 = {"k": "term", "f": "body", "t": "b1", "opt": "freq"}
+    key = {"kind": "score", "cmp": ["natural"]}
+    cases = [{"q": {"k": "bool", "cl": [{"o": "should", "q": t}, {"o": "should", "q": t}], "msm": 1, "explicit": False}, "key": key, "plan": [[1, 0], [3, 0], [10, 0]]},
+             {"q": {"k": "bool", "cl": [{"o": "should", "q": t}, {"o": "should", "q": t1}], "msm": 1, "explicit": False}, "key": key, "plan": [[1, 0], [3, 0], [10, 0]]}]
+    cp = ctx.path("kf_f47_cases.ndjson")
+    vlib.write_ndjson(cp, cases)
+    seen = []
+    before = ctx.cov["traces_validated_against_impl"]
+    for segs in (1, 5):
+        tp = ctx.path(f"kf_f47_trace_{segs}.ndjson")
+        vlib.run_bin("topk_driver", ["search", "--seed", 15, "--docs", 3000, "--segments", segs, "--fixed", cp, "--out", tp], timeout=300,
+                     env={"VERIF_HEAVY_SINGLE": "1"})
+        validate(ctx, vlib.read_ndjson(tp), f"kf_f47_{segs}", expect=seen)
+    ctx.cov["traces_validated_against_impl"] = before
+    ctx.cov.setdefault("recorded_findings_reproduced", {})["F47 bm25_max_score_exceeded"] = any(KF_MAXSCORE in s for s in seen)
 
 
 def binding_selftest(ctx, topn_events, search_events):
@@ -350,6 +381,7 @@ def run(ctx):
                                                                          (3000, ["--wand", "--segments", "5"]), (5000, ["--wand", "--segments", "3"])])]
     sev = searches(ctx, runs)
     known_finding_runs(ctx)
+    f47_reproduction(ctx)
     flat = [e for ev in sev for e in ev]
     binding_selftest(ctx, tev, flat)
     s = next((e for e in flat if e.get("ev") == "topk" and len(e["all"]) > 20), None)
